@@ -263,4 +263,13 @@ Definition vertex_angle (defect : Z -> T) (E : list edge) (rot : Z -> T) (v : Z)
 Definition singul (defect : Z -> T) (E : list edge) (rot : Z -> T) (v : Z) : T :=
   let a := vertex_angle defect E rot v in if sing_flag O a then sing_value O a else o0 O.
 
+(* What the (sparse) singularity attribute holds after flag_singularities when it held `old` before: entries are written
+   only where a singularity is flagged; everything else is reset or kept, as the generated flags say. *)
+Definition stored (resets : bool) (old : T) (flag : bool) (val : T) : T :=
+  if flag then val else if resets then o0 O else old.
+Definition singul_stored (old : Z -> T) (defect : Z -> T) (E : list edge) (rot : Z -> T) (v : Z) : T :=
+  let a := vertex_angle defect E rot v in stored sing_resets_faces (old v) (sing_flag O a) (sing_value O a).
+(* vertex-based field (indices live on faces): flag / value by the sign test of the face angle, same storage rule *)
+Definition vsingul_stored (old : T) (flag : bool) (val : T) : T := stored sing_resets_vertices old flag val.
+
 End Model.
